@@ -14,6 +14,10 @@ import NumqiProofs.CliffordEmbed
 import NumqiProofs.CliffordCircuit
 import NumqiProofs.CliffordQecBridge
 import NumqiProofs.CliffordOrbit
+import NumqiProofs.CliffordSuccess
+import NumqiProofs.CliffordExtract
+import NumqiProofs.CliffordAuto
+import NumqiProofs.CliffordRand
 import Mathlib.Analysis.Real.Sqrt
 import Mathlib.Data.Complex.Basic
 
@@ -289,6 +293,85 @@ example : Complex.I * Complex.I = -1 ∧ star Complex.I = -Complex.I ∧
   · rw [← Complex.ofReal_inv]; exact Complex.conj_ofReal _
   · rw [← Complex.ofReal_inv, ← Complex.ofReal_mul, ← mul_inv, Real.mul_self_sqrt (by norm_num)]
     norm_num
+
+/-! ### success: the end-to-end theorems are not conditional -/
+
+/-- **`clifford_multiply` returns** (the `assert` of `clifford.py:66` holds) whenever the sizes agree and `S_y` is symplectic -/
+theorem multiply_returns (x y : Tab) (hn : x.n = y.n) (hy : y.colSp = true) : (multiply x y).isSome = true :=
+  multiply_isSome x y hn hy
+
+/-- **`to_symplectic_form` returns for every well-formed non-empty gate record** (in particular for every record produced by
+method calls, `recorded_gates_wf`) -/
+theorem to_symplectic_form_returns (gates : List Gate) (hne : gates ≠ []) (hwf : GatesWF gates) :
+    ∃ t, symplecticOf gates = .ok t := symplecticOf_ok gates hne hwf
+
+/-- **`circuit_conjugation`, unconditional**: every non-empty well-formed record has a tableau `t` on `n` qubits, and `U† P U = apply(P, t)` -/
+theorem circuit_conjugation_total {R : Type} [CommRing R] [StarRing R] {I h : R} (hI : I * I = -1) (hs : star I = -I)
+    (hh : star h = h) (h2 : 2 * (h * h) = 1) (gates : List Gate) (hne : gates ≠ []) (hwf : GatesWF gates) :
+    ∃ t n, symplecticOf gates = .ok t ∧ Clifford.numQubit gates = .ok n ∧ t.n = n ∧ ∀ p : PauliB, p.v < 4 ^ n →
+      (circuitUnitary I h n gates).conjTranspose * PM n I p * circuitUnitary I h n gates = PM n I (applyOnPauli p t) := by
+  obtain ⟨t, ht⟩ := symplecticOf_ok gates hne hwf
+  obtain ⟨n, h1, h3, h4⟩ := circuit_conjugation_star hI hs hh h2 gates hwf t ht
+  exact ⟨t, n, ht, h1, h3, h4⟩
+
+/-! ### automorphism; the two symplectic conditions -/
+
+/-- a symplectic tableau preserves the symplectic form … -/
+theorem apply_preserves_form (t : Tab) (h : t.colSp = true) (v w : Nat) :
+    (om t.n (matVec t.cols v (2 * t.n)) (matVec t.cols w (2 * t.n)) +
+      om t.n (matVec t.cols w (2 * t.n)) (matVec t.cols v (2 * t.n))) % 2 = (om t.n v w + om t.n w v) % 2 :=
+  form_preserved t h v w
+
+/-- … and acts **bijectively** on the `n`-qubit phased Paulis: with `apply_hom` a phase-exact *automorphism* -/
+theorem apply_automorphism (t : Tab) (h : t.colSp = true) (hc : ∀ j, j < 2 * t.n → t.cols.getD j 0 < 4 ^ t.n) :
+    Set.BijOn (fun p => applyOnPauli p t) {p : PauliB | p.v < 4 ^ t.n} {p : PauliB | p.v < 4 ^ t.n} :=
+  apply_bijOn t h hc
+
+/-- **C09's `isSp` (`S Λ Sᵀ = Λ`, rows) implies C07's `colSp` (`Sᵀ Λ S = Λ`, columns)** for the tableau with that `cli_mat` -/
+theorem colSp_of_isSp (n r : Nat) (M : List Nat) (h : SpF2.isSp n M = true) :
+    (Tab.mk n r (colsOfRows (2 * n) M)).colSp = true := by
+  obtain ⟨hwf, hsp⟩ := (SpF2.isSp_iff n M).1 h
+  exact colSp_of_rowsSp n r M hwf hsp
+
+/-! ### the executed dense constants are the matrices of the theorems -/
+
+section dense
+variable {R : Type} [CommRing R]
+
+/-- the operator executed by the driver op `opmat` (C03's `embed`/`ctrlEmbed` of the exported gate over ℤ[i], tied to
+`Circuit.to_unitary`) is `gateMatrixN` (with `H` unnormalised) entry by entry under `ℤ[i] → R` -/
+theorem executed_gate_operator (I : R) (n : Nat) (g : Gate) :
+    gateMatrixN I 1 n g = Matrix.of (fun x y => gintTo I (gateOpG n g x y)) := gateMatrixN_eq_gateOpG I n g
+
+/-- the Pauli matrix executed by the driver op `paulimat` (C08's `matExp` over ℤ[i], tied to `full_matrix`) is `PM` -/
+theorem executed_pauli_matrix {I : R} (hI : I * I = -1) (n : Nat) (p : PauliB) :
+    PM n I p = Matrix.of (fun x y => gintTo I (pauliEntG n p x y)) := PM_eq_pauliEntG hI n p
+
+/-- the list-of-lists `pauliMat k p` used by `arrayToF2` / the kernel tables is C08's matrix **for every `k`** -/
+theorem pauliMat_is_C08 {I : R} (hI : I * I = -1) (k : Nat) (p : PauliB) : toMatrix k I (pauliMat k p) = PM k I p :=
+  toMatrix_pauliMat hI k p
+
+/-- **`clifford_array_to_F2` as executed (driver op `a2f`) is sound**: whenever it returns `T` for the integer matrix `U`
+(`U U† = γ·1`, `γ` a unit of `R`), `T` is symplectic and `U · P = apply(P, T) · U` for every phased Pauli on `k` qubits -/
+theorem array_to_F2_executed_sound [StarRing R] {I : R} (hI : I * I = -1) (hs : star I = -I) (hne : (1 : R) ≠ -1)
+    {k : Nat} {U : Clifford.Mat} {T : Tab} (h : arrayToF2 k U = some T)
+    (hγ : IsUnit (gintTo I ((Clifford.Mat.mul (2 ^ k) U (Clifford.Mat.dagger (2 ^ k) U)).get 0 0)))
+    (p : PauliB) (hp : p.v < 4 ^ k) :
+    T.colSp = true ∧ toMatrix k I U * PM k I p = PM k I (applyOnPauli p T) * toMatrix k I U :=
+  arrayToF2_sound_executed hI hs hne h hγ p hp
+
+end dense
+
+/-- non-vacuity: the executed extraction on `√2·H` over `ℂ` (`γ = 2`) -/
+example (p : PauliB) (hp : p.v < 4 ^ 1) :
+    toMatrix 1 Complex.I GateKey.H.mat * PM 1 Complex.I p =
+      PM 1 Complex.I (applyOnPauli p ⟨1, 0, [2, 1]⟩) * toMatrix 1 Complex.I GateKey.H.mat := by
+  have h : arrayToF2 1 GateKey.H.mat = some ⟨1, 0, [2, 1]⟩ := by decide +kernel
+  have hc : (Clifford.Mat.mul (2 ^ 1) GateKey.H.mat (Clifford.Mat.dagger (2 ^ 1) GateKey.H.mat)).get 0 0 = ⟨2, 0⟩ := by
+    decide +kernel
+  refine (array_to_F2_executed_sound Complex.I_mul_I Complex.conj_I ?_ h ?_ p hp).2
+  · intro e; have := congrArg Complex.re e; norm_num at this
+  · rw [hc]; simp [gintTo]
 
 /-! ### C19 (QEC model) ↔ C07 / C08 / C03: one set of objects -/
 
